@@ -41,10 +41,15 @@ def run(ctx):
 MANIFEST = dict(
     category="proof",
     text="Theorems over an executable model of iptables.Table (hash read-back, dirty tracking, positional delta, hook "
-         "re-insertion, stale-chain cleanup, retry loop) and of iptables-restore: from any kernel table a successful Apply "
-         "reaches the target state, foreign rules/chains are never touched, unchanged chains are not mentioned in the restore "
-         "input, for every history of API calls, failures, edits and restarts; plus a correspondence run of the model and a "
-         "spec oracle against the real Table driven through MockDataplane.",
-    note="Trusted: Coq kernel; hand-written model tied to the code only by the correspondence run; Go driver; nftables "
-         "backend (felix/nftables/table.go) and the iptables-nft mode are not covered.",
+         "re-insertion, stale-chain cleanup, retry loop) and of iptables-restore: foreign rules/chains are never touched by "
+         "any Apply (any failures, racing edits, stale caches); a chain whose hashes already match gets no line in the "
+         "restore input; one accepted restore transaction computed from an accurate read-back brings every chain to its "
+         "target (owned chains = wanted rules, stale chains gone, hooks at the configured position) - partial: the step "
+         "from loadDataplaneState's marking to that hypothesis and the API-call part of the history invariant are not "
+         "proved; plus a correspondence run of the model and a history-level spec oracle (convergence, foreign untouched, "
+         "no rewrite) against the real Table driven through MockDataplane.",
+    note="Trusted: Coq kernel; hand-written model tied to the code only by the correspondence run; Go driver. Not covered: "
+         "nftables backend (felix/nftables/table.go), iptables-nft mode (BackendMode nft), cleanup-only tables, timers "
+         "(enter as explicit invalidate events), chain-reference constraints of --delete-chain. Known finding: "
+         "force-downgrade-refcount-leak (fix patch in fixes/).",
 )
